@@ -27,6 +27,35 @@ def run(ctx):
         if s is not None and genlib.min_tuple_arity(s) < 2:
             ctx.fail("json_shape 0.5.1 inferred a tuple of arity < 2 (the carve-out assumes it never does)",
                      "gen_infer051\t" + "\t".join(hexs(t) for t in ss), sh_str(s))
+    # end to end: compile_json on real files - plain, under one base name in different directories, and with the
+    # first path listed again - must return the rendering of the shape inferred from the sources AS LISTED
+    # (repetitions included: merging is not idempotent once a union has formed in between); where it does not,
+    # the decode oracle below judges the text compile_json really returned
+    sets = [ss for ss in (genlib.SOURCE_SETS + [['{"a":null}', '{"a":1}', '{"a":"x"}'], ['[null]', 'null', '[1]'], ['{"k":[]}', '{"k":[1]}', '{"k":null}']])
+            if len(ss) >= 1][: (40 if ctx.tier == "quick" else 80)]
+    lay = []
+    for ss in sets:
+        lay.append((ss, [("T", t) for t in ss]))
+        if len(ss) >= 2:
+            lay.append((ss, [("S", t) for t in ss]))
+        lay.append((ss + [ss[0]], [("T", t) for t in ss] + [("R", 0)]))
+    inf, _ = genlib.infer051(ctx, [l for l, _ in lay])
+    e2e = [(l, sp, sh) for (l, sp), sh in zip(lay, inf) if sh is not None and genlib.printable_shape(sh)]
+    cl = ["compile\t%s\t%s%s" % (hexs("e2e"), hexs("out"), "".join("\t" + k + (hexs(t) if k in "TS" else str(t)) for k, t in sp)) for _, sp, _ in e2e]
+    sc2 = ctx.corr_scopes.setdefault("compile_json(real files) returns render(shape inferred from the sources as listed)", {"cases": 0, "disagreements": 0})
+    et = [sh_str(sh) for _, _, sh in e2e]
+    er = ctx.impl(["gen_render\t" + t for t in et])
+    for t, l, r, rr in zip(et, cl, ctx.impl(cl), er):
+        c = genlib.parse_compile(r)
+        sc2["cases"] += 1
+        if c["ret"] != "OK":
+            continue
+        text = rr
+        if c["text"] != genlib.text_of(rr):
+            sc2["disagreements"] += 1
+            ctx.disagreements.append({"scope": "compile_json end to end", "case": l[:300], "model": (genlib.text_of(rr) or "")[:300], "impl": c["text"][:300]})
+            text = "TEXT " + c["text"].encode().hex()
+        ascii_pool.append((parse_sh(t), "end-to-end")); ts.append(t); mi = list(mi) + [text]
     # parse the implementation's text
     encs, bad_parse = [], 0
     for t, r in zip(ts, mi):
